@@ -33,14 +33,19 @@ impl<R: io::Read> IoReader<R> {
 
     /// Fill the internal buffer with the given length
     pub fn fill_buffer(&mut self, len: usize) -> Result<(), io::Error> {
-        let l = self.buf.len();
-        if l < len {
-            self.buf.resize(len, 0);
-            self.reader.read_exact(&mut self.buf[l..])?;
-            Ok(())
-        } else {
-            Ok(())
+        // `len` usually comes straight from a size field on the wire. Never allocate what the
+        // peer merely claims: grow the buffer as the bytes actually arrive.
+        const CHUNK: usize = 4096;
+        while self.buf.len() < len {
+            let l = self.buf.len();
+            let step = (len - l).min(CHUNK);
+            self.buf.resize(l + step, 0);
+            if let Err(err) = self.reader.read_exact(&mut self.buf[l..]) {
+                self.buf.truncate(l);
+                return Err(err);
+            }
         }
+        Ok(())
     }
 }
 
